@@ -140,10 +140,11 @@ def _subst_text(text, env_items):
 class Sym(paths.Domain):
     INIT = (frozenset(), frozenset(), None)
 
-    def __init__(self, substitute=True, fact_filter=None, store_filter=None):
+    def __init__(self, substitute=True, fact_filter=None, store_filter=None, no_subst=()):
         """fact_filter(atom text) / store_filter(target text): keep only what the client needs
         (fewer distinct states: facts and store entries never merge paths)."""
         self.substitute = substitute
+        self.no_subst = set(no_subst)  # object-valued locals (aliases): never inlined
         self.fact_filter = fact_filter
         self.store_filter = store_filter
 
@@ -160,7 +161,7 @@ class Sym(paths.Domain):
             return 'None'
         if self.substitute:
             used = {x.id for x in ast.walk(e) if isinstance(x, ast.Name)}
-            env = {k: v for k, v in store.items() if k in used and '@' not in v}
+            env = {k: v for k, v in store.items() if k in used and '@' not in v and k not in self.no_subst}
             if env:
                 return _subst_text(norm(e), tuple(sorted(env.items())))
         return norm(e)
@@ -239,7 +240,7 @@ class Sym(paths.Domain):
         a = atom
         if self.substitute:
             used = {x.id for x in ast.walk(atom) if isinstance(x, ast.Name)}
-            env = {k: x for k, x in sd.items() if k in used and '@' not in x}
+            env = {k: x for k, x in sd.items() if k in used and '@' not in x and k not in self.no_subst}
             if env:
                 a = ast.parse(_subst_text(norm(atom), tuple(sorted(env.items()))), mode='eval').body
         t, tr = canon(a, truth)
@@ -332,3 +333,15 @@ def slice_locals(fn, seeds) -> set:
                     want |= new
                     changed = True
     return want
+
+
+def object_locals(fn) -> set:
+    """Local names used as the base of an attribute access or an item store: they denote objects
+    (possibly aliased), so inlining their defining expression would lose identity."""
+    out = set()
+    for n in ast.walk(fn):
+        if isinstance(n, ast.Attribute) and isinstance(n.value, ast.Name) and n.value.id not in ('self', 'cls'):
+            out.add(n.value.id)
+        if isinstance(n, ast.Subscript) and isinstance(n.ctx, (ast.Store, ast.Del)) and isinstance(n.value, ast.Name):
+            out.add(n.value.id)
+    return out
